@@ -86,11 +86,17 @@ Iter(e, en, st) ==
                      IF cs[i] \in cx THEN Find(x.el, cs[i]) ELSE x.df,
                      IF cs[i] \in cy THEN Find(y.el, cs[i]) ELSE y.df>>)]],
           df |-> Tup(<<[k |-> "str", s |-> "mask"], x.df, y.df>>)]
-    [] IsMeth(e, "intersection") ->
-         LET x == Iter(e.args[1], en, st)  y == Iter(e.args[2], en, st)
-             cs == SortC({x.el[i].c : i \in 1..Len(x.el)} \cap {y.el[i].c : i \in 1..Len(y.el)}) IN
-         [el |-> [i \in 1..Len(cs) |-> [c |-> cs[i], p |-> Tup(<<Find(x.el, cs[i]), Find(y.el, cs[i])>>)]],
-          df |-> Tup(<<x.df, y.df>>)]
+    [] IsMeth(e, "intersection") ->      \* Fiber.intersection(f1, .., fn, style=..): read as f1 & (f2 & (.. & fn)) (A10: the only reading
+         LET n == Len(e.args)             \* under which the payload patterns the compiler itself emits destructure)
+             its == [k \in 1..n |-> Iter(e.args[k], en, st)]
+             cset(k) == {its[k].el[i].c : i \in 1..Len(its[k].el)}
+             RECURSIVE Common(_)
+             Common(k) == IF k = n THEN cset(n) ELSE cset(k) \cap Common(k + 1)
+             cs == SortC(Common(1))
+             RECURSIVE Nest(_, _), NestD(_)
+             Nest(k, c) == IF k = n THEN Find(its[n].el, c) ELSE Tup(<<Find(its[k].el, c), Nest(k + 1, c)>>)
+             NestD(k) == IF k = n THEN its[n].df ELSE Tup(<<its[k].df, NestD(k + 1)>>) IN
+         [el |-> [i \in 1..Len(cs) |-> [c |-> cs[i], p |-> Nest(1, cs[i])]], df |-> NestD(1)]
     [] IsMeth(e, "project") ->
          LET x == Iter(e.fn.obj, en, st)
              lam == Kw(e, "trans_fn")
